@@ -16,7 +16,13 @@
 #include <kernel/global/vector.hpp>
 #include <kernel/global/filter.hpp>
 using namespace vf;
-typedef double DT; typedef Index IT;
+// the index type is a build parameter: binary c06_filter_i32 runs the same targets with 32-bit indices (the arch dispatch
+// structs have separate overloads per data/index type pair - C06k sat in the double/uint32 one)
+#ifndef C06_IT
+#define C06_IT Index
+#define C06_SFX ""
+#endif
+typedef double DT; typedef C06_IT IT;
 typedef DenseVector<DT, IT> DV;
 
 static const long double U = unit_roundoff<DT>();
@@ -302,9 +308,9 @@ int main(int argc, char** argv)
 {
   FEAT::Runtime::ScopeGuard guard(argc, argv);
   std::vector<Target> tg;
-  tg.push_back({"unit", unit_case, 96, 16});
-  tg.push_back({"blocked", [](Tape& t, Ctx& c) { if(t.flag()) blocked_case<2>(t, c); else blocked_case<3>(t, c); }, 96, 12});
-  tg.push_back({"mean", [](Tape& t, Ctx& c) { if(t.flag(1, 3)) mean_blocked_case(t, c); else mean_case(t, c); }, 96, 12});
-  tg.push_back({"composed", composed_case, 96, 8});
+  tg.push_back({"unit" C06_SFX, unit_case, 96, 16});
+  tg.push_back({"blocked" C06_SFX, [](Tape& t, Ctx& c) { if(t.flag()) blocked_case<2>(t, c); else blocked_case<3>(t, c); }, 96, 12});
+  tg.push_back({"mean" C06_SFX, [](Tape& t, Ctx& c) { if(t.flag(1, 3)) mean_blocked_case(t, c); else mean_case(t, c); }, 96, 12});
+  tg.push_back({"composed" C06_SFX, composed_case, 96, 8});
   return main_impl(argc, argv, tg);
 }
